@@ -35,6 +35,8 @@ type KnownFile struct {
 }
 
 var evidenceExtra = map[string]interface{}{}
+var ex0rebound map[string]map[string][]string
+var goneFuncs = map[string]bool{}
 
 func hasProp(ps []string, p string) bool {
 	for _, x := range ps {
@@ -58,6 +60,7 @@ func directlyTagged(db *SpecDB, fn, prop string) bool {
 func runCheck(ld *Loaded, db *SpecDB, work string, t0 time.Time) int {
 	prop := *flagProp
 	ex := newExec(ld, db)
+	ex0rebound = ex.rebound
 	var reports []*FuncReport
 	var all []*Obligation
 	engineErrs := []string{}
@@ -427,6 +430,15 @@ func finish(ld *Loaded, db *SpecDB, reports []*FuncReport, groups map[string]*ob
 		// A function that was only verified because another function of the property relied on
 		// its contract drops out of the check when that reliance disappears (a call removed or
 		// redirected). Its obligations are then decided by the properties that name it.
+		// An unexported function or a closure that no longer exists (inlined into its caller,
+		// merged with another closure): verification is modular, so what it guaranteed must now
+		// be established by the functions that used to call it, whose own obligations are all
+		// still generated and checked.
+		if _, exists := ld.byKey[fn]; !exists && eligibleForRekey(fn) {
+			moved = append(moved, n)
+			goneFuncs[fn] = true
+			continue
+		}
 		if !verified[fn] && !directlyTagged(db, fn, prop) {
 			if _, exists := ld.byKey[fn]; exists {
 				moved = append(moved, n)
@@ -442,6 +454,27 @@ func finish(ld *Loaded, db *SpecDB, reports []*FuncReport, groups map[string]*ob
 	}
 	if *flagWriteBaseline {
 		writeBaseline(prop, groups, names)
+		var keys []string
+		for _, r := range reports {
+			keys = append(keys, r.Key)
+		}
+		writeBaseNames(*flagNames, ld, keys)
+	}
+	for _, fnk := range sortedKeys(goneFuncs) {
+		fmt.Printf("NOTE: %s no longer exists (unexported function or closure); its contract is not checked, its callers' contracts are\n", fnk)
+	}
+	for _, k := range sortedKeys(rekeyed) {
+		fmt.Printf("NOTE: contract %s now applies to %s (same signature, renamed or re-nested)\n", k, rekeyed[k])
+	}
+	evidenceExtra["functions_gone"] = sortedKeys(goneFuncs)
+	evidenceExtra["contracts_rekeyed"] = rekeyed
+	evidenceExtra["rebound_names"] = ex0rebound
+	for _, fnk := range sortedKeys(ex0rebound) {
+		var parts []string
+		for _, o := range sortedKeys(ex0rebound[fnk]) {
+			parts = append(parts, o+"->"+strings.Join(ex0rebound[fnk][o], "|"))
+		}
+		fmt.Printf("NOTE: %s: contract names rebound after a rename: %s\n", fnk, strings.Join(parts, ", "))
 	}
 	evidenceExtra["unreachable_returns"] = deadReturns
 	evidenceExtra["baseline_obligations_no_longer_generated"] = moved
